@@ -45,12 +45,21 @@ def run_witnesses(prop: str) -> list[corpus.Case]:
     return cases
 
 
-def corpus_check(ctx, prop: str, oracle=None, *, stream: str = "base", nontrivial=None, rule: str = "", extra_cases=None):
+def corpus_check(ctx, prop: str, oracle=None, *, stream: str = "base", nontrivial=None, rule: str = "", extra_cases=None,
+                 use_l1: bool = True, l1_oracle=None):
     """oracle(case) -> (violations, n_checked) ; returns the result dict expected by check.py"""
     tier, seed = ctx["tier"], ctx["seed"]
     cases = corpus.get(stream, corpus.base_size(tier), seed, tier)
     dis = corpus.back_disagreements(cases, prop)
+    l1_items = corpus.get_l1(seed, tier) if use_l1 else []
+    dis += corpus.l1_disagreements(l1_items, prop)
     violations = []
+    if use_l1 and l1_oracle is not None:
+        for it in l1_items:
+            if it["impl"].get("exc"):
+                continue
+            for v in l1_oracle(it):
+                violations.append({**v, "l1_api_seed": it["api_seed"], "nc": it["nc"]})
     checked = 0
     nt = 0
     wit = run_witnesses(prop) if oracle is not None else []
@@ -72,7 +81,7 @@ def corpus_check(ctx, prop: str, oracle=None, *, stream: str = "base", nontrivia
         sample.append({"package": c.pkg.name, "options": c.job.get("docstyle"), "modules": [m.path for m in c.pkg.modules],
                        "stub_excerpt": (stubs[first][:400] if first else None)})
     return {
-        "evaluations": len(cases),
+        "evaluations": len(cases) + len(l1_items),
         "distinct_nontrivial": nt,
         "rule": rule or "generated packages (domain stream: unique name numbers, all declaration forms, four docstring styles, naming "
                         "conversion on half of them) analysed by the real tool; the model is run on the very API object the analyzer "
@@ -81,7 +90,7 @@ def corpus_check(ctx, prop: str, oracle=None, *, stream: str = "base", nontrivia
         "samples": sample,
         "disagreements": dis,
         "violations": violations,
-        "stats": {"packages": len(cases), "declarations_checked": checked, "runs_aborted": len(crashed),
+        "stats": {"packages": len(cases), "l1_api_objects": len(l1_items), "declarations_checked": checked, "runs_aborted": len(crashed),
                   "styles": {s: sum(1 for c in cases if c.pkg.style == s) for s in corpus.STYLES}},
         "cases": cases,
     }
